@@ -604,6 +604,47 @@ def prove_pos(form, facts, depth=0):
     return True, None
 
 
+def prove_nonneg(form, facts, depth=0):
+    """Is `form` >= 0 under the facts?  (zero, or after reduction only unsigned atoms with positive coefficients and a
+    non-negative constant; min/max/saturating_sub atoms are case-split)"""
+    ok, _ = prove_zero(form, facts)
+    if ok:
+        return True, None
+    ls = linsys_from_facts(facts)
+    r = ls.reduce(form)
+    if r.is_const():
+        return (r.k >= 0), "constant %s" % r.k
+    if all(v > 0 and not _maybe_signed(a) for a, v in r.c.items()) and r.k >= 0:
+        return True, None
+    mm = (_find_minmax(r) or _find_minmax(form)) if depth < 5 else None
+    if mm is None:
+        return False, "residual %r is not known to be non-negative" % r
+    a, b = mm[1], mm[2]
+    gt = facts.decide_atom(("lt", b, a))
+    lt = facts.decide_atom(("lt", a, b))
+    if mm[0] == "min":
+        v1, v2 = a, b
+    elif mm[0] == "max":
+        v1, v2 = b, a
+    else:
+        v1, v2 = Int(0), ("bin", "Sub", a, b)
+    poss = []
+    if gt is not True:
+        poss.append((v1, ("lt", b, a), False))
+    if gt is not False and lt is not True:
+        poss.append((v2, ("lt", b, a), True))
+    for val, atom, pol in poss:
+        f2 = facts.copy()
+        if f2.decide_atom(atom) is None:
+            f2.atoms[atom] = pol
+            f2.order.append((atom, pol))
+        f3 = _subst_facts(f2, mm, val)
+        ok, why = prove_nonneg(subst_affine(form, mm, val), f3, depth + 1)
+        if not ok:
+            return False, "case %s=%s: %s" % (short(mm), short(val), why)
+    return True, None
+
+
 def get_field(t, name, variant=None):
     """field `name` of a struct-like term: constructed aggregate, functional update chain, or projection"""
     while isinstance(t, tuple):
